@@ -181,11 +181,47 @@ def errors(chk, r):
     chk.count("error-cases", 8)
 
 
+def derived_after_build(chk, r, tier):
+    """an index built on (or a query made on) the parent, then a derived object - reversed, copied by [:], strided, a window -
+    queried: the rows are those of the derived object, whatever the parent has memoised"""
+    for kind in ("point", "line", "polygon", "multipoint") if tier == "quick" else geo.KINDS:
+        els = []
+        while len(els) < 11:
+            els += [e for e in geo.structured_elements(kind, r, 12, mag=20)]
+        els = els[:11]
+        n = len(els)
+        fresh = geo.make_array(kind, els, "float64")
+        derivs = [("[::-1]", lambda a: a[::-1], lambda o: o.iloc[::-1]), ("[:]", lambda a: a[:], lambda o: o.iloc[:]),
+                  ("[::2]", lambda a: a[::2], lambda o: o.iloc[::2]), ("[1:][::-1]", lambda a: a[1:][::-1], lambda o: o.iloc[1:].iloc[::-1]),
+                  ("[::-1][::-1]", lambda a: a[::-1][::-1], lambda o: o.iloc[::-1].iloc[::-1]), ("[3:9]", lambda a: a[3:9], lambda o: o.iloc[3:9])]
+        for dname, fa, fo in derivs:
+            for cname, obj, labels in containers(kind, fresh.copy(), els, r):
+                rep = dict(api=f"{cname}.cx", kind=kind, elements=els, derivation=dname, page_size=2, p=6)
+                try:
+                    obj.build_sindex(p=6, page_size=2)
+                    obj.cx[-3:3, -3:3]
+                    child = fa(obj) if cname == "array" else fo(obj)
+                    idx = eval("list(range(n))" + dname)
+                    for box in ((-21, -21, 0, 0), (-5, -8, 12, 9), (2, -21, 21, 21)):
+                        res = child.cx[box[0]:box[2], box[1]:box[3]]
+                        m = [bool(x) for x in fresh.intersects_bounds(box)]
+                        got = result_rows(cname, res, kind)
+                        exp = expected_rows(cname, els, labels, [i for i in idx if m[i]])
+                        chk.evaluated(len(idx))
+                        if got != exp:
+                            chk.violation(f"cx/{kind}/{cname}/derived-after-build-on-the-parent/{dname}", dict(rep, box=list(box), impl=got, expected=exp), size=n)
+                            break
+                except Exception as e:  # noqa: BLE001
+                    chk.violation(f"cx/{kind}/{cname}/derived-after-build-raises-{common.err_kind(e)}", dict(rep, error=repr(e)[:300]), size=n)
+    chk.count("derived-after-build")
+
+
 def run_cases(chk, tier):
     from .c01 import families, random_family, random_boxes
     r = common.rng(PROP)
     fam = families(tier)
     errors(chk, r)
+    derived_after_build(chk, r, tier)
     per = 30 if tier == "quick" else 250
     for kind in geo.KINDS:
         base, boxes = fam[kind]
